@@ -19,7 +19,8 @@ LEVEL_TEXT = ("Positive half: every registered function/ufunc (read from the dis
               "function returned by numpy.testing.overrides.get_overridable_numpy_array_functions() and every ufunc of "
               "get_overridable_numpy_ufuncs() that is not registered, plus outer/at/reduceat/unmapped reduce/accumulate "
               "of every ufunc, is called with a polynomial through templates that numpy accepts for a float array and "
-              "must raise FeatureNotSupported.")
+              "must raise FeatureNotSupported; the negative enumeration is run twice, before (cold) and after (warm) the "
+              "positive half has dispatched the registered functions.")
 EXHAUSTIVE_PARTS = ("the negative half enumerates the complete overridable numpy API of the installed numpy "
                     "(recomputed each run); functions no template reaches are listed in the evidence, not claimed")
 RULE = (
@@ -54,7 +55,18 @@ def case_st(draw, only=None):
         a = draw(gen.poly_desc(names=names, shape=target, kind="i", max_terms=3, max_exp=2, retain=False))
         b = draw(gen.poly_desc(names=names, shape=gen.broadcast_member(draw, target), kind="i", min_terms=1,
                                max_terms=2, max_exp=1, retain=False))
-        return {"fn": "poly-division", "a": a, "b": b}
+        if draw(st.integers(0, 2)) == 0:
+            # plain numbers / arrays as divisor (zeros included): still spellings of poly_divide etc.
+            shp = gen.broadcast_member(draw, target)
+            size = gen.size_of(shp)
+            how = draw(st.sampled_from(["array", "list", "pyint", "pyfloat"]))
+            vals = draw(st.lists(st.sampled_from([2, 0, 4, -1, 3, 1]), min_size=size, max_size=size))
+            if how in ("pyint", "pyfloat"):
+                shp = ()
+                vals = vals[:1] or [2]
+            b = {"num": how, "shape": list(shp), "kind": "i" if how != "pyfloat" else "f",
+                 "values": vals if how != "pyfloat" else [v * 4 for v in vals]}
+        return {"fn": "poly-division", "a": a, "b": b, "reflect": draw(st.integers(0, 3)) == 0}
     fn = only or draw(st.sampled_from(sorted(n for n in RECIPES if n not in SKIP_POS)))
     call = RECIPES[fn].gen(draw, OG)
     call["fn"] = fn
@@ -364,6 +376,8 @@ def check_negative(case, ctx):
         n = len(reg)
         ctx.label("registry-coverage")
     ctx.add_evals(n, n)
+    if case.get("warm"):
+        ctx.label("negative:warm-pass")
     # keep one failure per bucket
     seen = set()
     out = []
@@ -384,8 +398,11 @@ def check_case(case, ctx):
     fn = case["fn"]
     fails = []
     if fn == "poly-division":
+        from ..conv import build_operand
         a, _ = build_checked(case["a"])
-        b, _ = build_checked(case["b"])
+        b, _ = build_operand(case["b"])
+        if case.get("reflect") and "num" in case["b"]:
+            a, b = b, a  # number or array on the left: reflected operators
         pairs = [("/", lambda: a / b, lambda: numpoly.poly_divide(a, b)),
                  ("%", lambda: a % b, lambda: numpoly.poly_remainder(a, b)),
                  ("divmod", lambda: divmod(a, b), lambda: numpoly.poly_divmod(a, b))]
@@ -452,3 +469,13 @@ def check_case(case, ctx):
         isinstance(a, list) and any(isinstance(x, numpoly.ndpoly) and not x.isconstant() for x in a) for a in args)
     ctx.nontrivial(len(sps) >= 2 and nonconst)
     return fails
+
+
+def run_extra(worker):
+    """Warm pass: repeat the negative enumeration AFTER the positive half has exercised the registered
+    functions (an implementation may cache dispatch decisions and start leaking unregistered namesakes)."""
+    for case in enumerate_cases(worker.tier):
+        if case.get("neg") == "registry-coverage":
+            continue
+        case = dict(case, warm=True)
+        worker.run_case(case)
